@@ -257,11 +257,19 @@ def text_document(t, ctx, label, theme=None):
             for k in cur:
                 res[b"Font"][k] = VARIANTS[cur[k]][0](alloc, shared)
             features.add("direct font dictionary")
-        if p and t.coin(15, 100, "page.dropfont"):
+        if p and t.coin(8, 100, "page.nores"):
+            # a page without any /Resources (own or inherited) that still uses /F1: whatever the library falls back to, it
+            # is a function of this page alone, not of the page interpreted before it
+            res = None
+            features.add("page without resources")
+        elif p and t.coin(15, 100, "page.dropfont"):
             # the page uses a font name its resources do not define (falls back to the default font)
             del res[b"Font"][t.pick([b"F1", b"F2"], "page.drop")]
             features.add("page uses undefined font name")
-        page = alloc({b"Type": Name(b"Page"), b"Parent": Ref(2, 0), b"MediaBox": [0, 0, 612, 792], b"Contents": c, b"Resources": res})
+        pd = {b"Type": Name(b"Page"), b"Parent": Ref(2, 0), b"MediaBox": [0, 0, 612, 792], b"Contents": c}
+        if res is not None:
+            pd[b"Resources"] = res
+        page = alloc(pd)
         kids.append(page)
     objects[1] = {b"Type": Name(b"Catalog"), b"Pages": Ref(2, 0)}
     if t.coin(3, 100, "doc.manynames"):
